@@ -305,6 +305,11 @@ func Join[A any](ctx context.Context, in ...<-chan A) <-chan A {
 func Take[A any](ctx context.Context, in <-chan A, n int) <-chan A {
 	out := make(chan A, cap(in))
 
+	if n <= 0 {
+		close(out)
+		return out
+	}
+
 	go func() {
 		defer close(out)
 
